@@ -114,6 +114,16 @@ def matrix(tier):
                "opts": oi, "cell": ["duplicates-in-bundle-anonymous-top", oi]}
     for c in _time_only_cells():
         yield c
+    # one identifier declared with TWO element kinds in one scope (agent ex:bob and entity ex:bob): two element records
+    for oi in (0, 17, 42, 63):
+        n = lambda l: {"ns": "http://a/", "local": l, "prefix": "ex", "as": "qn"}
+        two = [["ns", 0, "ex", "http://a/"], ["bundle", n("b1"), "bundle"],
+               ["rec", 0, "agent", n("bob"), {}, [[n("role"), {"k": "str", "v": "as agent"}]], "factory"],
+               ["rec", 0, "entity", n("bob"), {}, [[n("kind"), {"k": "str", "v": "as entity"}]], "factory"],
+               ["rec", 1, "entity", n("acme"), {}, [[n("k"), {"k": "int", "v": 1}]], "factory"],
+               ["rec", 1, "agent", n("acme"), {}, [[n("k2"), {"k": "int", "v": 2}]], "factory"],
+               ["rec", 0, "attribution", None, {"entity": {"name": n("bob")}, "agent": {"name": n("bob")}}, [], "factory"]]
+        yield {"profile": "dot", "ops": two, "opts": oi, "cell": ["two-element-kinds-one-identifier", oi]}
 
 
 def _time_only_cells():
